@@ -18,6 +18,8 @@ Decided from the source against ref/dch_ref.py:
 Not decided: hull geometry (scipy/Qhull trusted), general position, the
 metamorphic invariances numerically.
 """
+import os
+
 from .. import protocols
 from ..harness import arr, scalar
 from ..interp import State
@@ -92,7 +94,7 @@ def check(ctx):
             valv = kw.get("values") or (a_[1] if len(a_) > 1 else None)
             def contains(big, small):
                 nfs = N.nf(small)
-                return any(x.op == small.op and N.nf(x) == nfs for x in big.walk())
+                return any(x.op in (small.op, "getitem", "reshape1", "reshape") and N.nf(x) == nfs for x in big.walk())
 
             # 1-D hulls: the same argsort permutation is applied to coordinates and values
             okp = ptsv is not None and contains(ptsv.term, ref.items[4].term)
@@ -101,6 +103,10 @@ def check(ctx):
                 perm_p = [x for x in ptsv.term.walk() if x.op == "argsort"]
                 perm_v = [x for x in valv.term.walk() if x.op == "argsort"]
                 okv = bool(perm_p) and set(perm_p) == set(perm_v)
+            if os.environ.get("VERIF_DEBUG_TERMS") and not (okp and okv):
+                from ..nf import show_poly as _sp
+
+                print("DEBUG C19 points:", _sp(N.nf(ptsv.term))[:500], "\n  ref:", _sp(N.nf(ref.items[4].term))[:500], "\n values:", _sp(N.nf(valv.term))[:400], "\n  ref:", _sp(N.nf(ref.items[5].term))[:400])
             ctx.ob("R-LOWER", f"interpolator: low-dim coordinates and high-dim features of the selected points, one index set [{cfg}]", okp and okv, f"points {None if ptsv is None else repr(ptsv.term)[:120]}; values {None if valv is None else repr(valv.term)[:120]}", site, cfg)
         ctx.no_shape_conflicts("Shape", f"fit [{cfg}]", I, lo, site, cfg)
         ctx.ob("R-SELF", f"fit returns self [{cfg}]", r.kind == "obj" and r.obj is o.obj, f"{r!r}", site, cfg, nontrivial=False)
